@@ -6,11 +6,11 @@ CONSTANTS Kinds = {"plain"}
           PlainMethKeys = {"G", "GR"}
           MaxLen = 2
           MaxT = 2
-          ServerSet = {"schemes", "ports", "dup", "absbv", "relbv", "absbvx", "relbvx", "abshx", "abspx", "psschemes", "absschv", "schvdup", "psrel", "psvar"}
+          ServerSet = {"schemes", "ports", "dup", "absbv", "relbv", "absbvx", "relbvx", "abshx", "abspx", "psschemes", "absschv", "schvdup", "psrel", "psvar", "abspe", "abspe2", "abshe"}
           CoreLen = 2
           CoreT = 1
-          CoreServers = {"schemes", "ports", "dup", "absbv", "relbv", "absbvx", "relbvx", "abshx", "abspx", "psschemes", "absschv", "schvdup", "psrel", "psvar"}
-          Slice = 32
+          CoreServers = {"schemes", "ports", "dup", "absbv", "relbv", "absbvx", "relbvx", "abshx", "abspx", "psschemes", "absschv", "schvdup", "psrel", "psvar", "abspe", "abspe2", "abshe"}
+          Slice = 48
           Seed = 1
           DesignAll = FALSE
 INVARIANTS DesignOK Emit
